@@ -108,13 +108,14 @@ Fixpoint gtrace {S O : Type} (step : S -> O -> S * res) (obs : S -> list (list Z
   | inl o :: t => let '(s1, r) := step s o in ([zres r] :: obs s1 ++ [[]]) :: match r with UBk _ => [] | _ => gtrace step obs query s1 t end
   | inr v :: t => ([0%Z] :: obs s ++ [query s v]) :: gtrace step obs query s t end.
 (* the spec side: Some = what must be reported, None = no opinion (forced calls, and everything after them) *)
-Fixpoint gspec_trace {A O : Type} (rej : A -> O -> option Z) (sstep : A -> O -> A) (sobs : A -> list (list Z)) (sz : A -> nat) (qlen : nat)
+Fixpoint gspec_trace {A O : Type} (ok : A -> bool) (rej : A -> O -> option Z) (sstep : A -> O -> A) (sobs : A -> list (list Z)) (sz : A -> nat) (qlen : nat)
   (a : A) (ops : list (O + nat)) : list (option (list (list Z))) :=
+  let say (b : A) (x : list (list Z)) := if ok b then Some x else None in
   match ops with
   | [] => []
   | inl o :: t =>
     match rej a o with
     | None => map (fun _ => None) ops
-    | Some c => if Z.eqb c 0 then let a' := sstep a o in Some ([0%Z] :: sobs a' ++ [[]]) :: gspec_trace rej sstep sobs sz qlen a' t
-                else Some ([c] :: sobs a ++ [[]]) :: gspec_trace rej sstep sobs sz qlen a t end
-  | inr v :: t => (if Nat.ltb v (sz a) then None else Some ([0%Z] :: sobs a ++ [repeat (zexn OutOfRange) qlen])) :: gspec_trace rej sstep sobs sz qlen a t end.
+    | Some c => if Z.eqb c 0 then let a' := sstep a o in say a' ([0%Z] :: sobs a' ++ [[]]) :: gspec_trace ok rej sstep sobs sz qlen a' t
+                else say a ([c] :: sobs a ++ [[]]) :: gspec_trace ok rej sstep sobs sz qlen a t end
+  | inr v :: t => (if Nat.ltb v (sz a) then None else say a ([0%Z] :: sobs a ++ [repeat (zexn OutOfRange) qlen])) :: gspec_trace ok rej sstep sobs sz qlen a t end.
